@@ -370,6 +370,17 @@ async fn network_connect(
     options: &MqttOptions,
     network_options: NetworkOptions,
 ) -> Result<Network, ConnectionError> {
+    // verification hook: use the injected in-memory transport when one is installed
+    #[cfg(feature = "verif-hooks")]
+    if let Some(stream) = crate::verif::connect().await {
+        let network = Network::new(
+            stream?,
+            options.max_incoming_packet_size,
+            options.max_outgoing_packet_size,
+        );
+        return Ok(network);
+    }
+
     // Process Unix files early, as proxy is not supported for them.
     #[cfg(unix)]
     if matches!(options.transport(), Transport::Unix) {
